@@ -944,8 +944,9 @@ struct Gc {
     /// in the view a Suspend INSIDE Suspense resolves to: a Suspend/Resource nested there is dropped by the
     /// real renderer when still pending (C07's business, timing-dependent content) — not generated
     in_susp_suspend: bool,
-    /// under a Provider/Suspense that is itself rendered late: a Suspense below it is the second known class
-    /// (F-C20-2, response may hang); only in the corpus
+    /// under a Provider/Suspense that is itself rendered late: a Suspense or an `on_cleanup` below it is the
+    /// second known class (F-C20-2: the owner is parked in another request's cleanups or dropped at once:
+    /// the response may hang, the cleanup runs at the other request's disposal); only in the corpus
     no_u: bool,
     /// avoid the first known class (F-C20-1): no lazy leaf directly in a late view
     safe: bool,
@@ -965,7 +966,8 @@ impl G {
         match self.rng.below(10) {
             0..=4 if !(exposed_pos && c.safe) => P::L(self.leaf()),
             0..=6 => P::E(self.leaf()),
-            7 => P::C(self.leaf()),
+            7 if !c.no_u => P::C(self.leaf()),
+            7 => P::E(self.leaf()),
             _ => P::F(self.rng.range(1, 3) as u32, self.leaf()),
         }
     }
@@ -1020,7 +1022,7 @@ impl G {
 
 fn gen_case(rng: &mut Rng, name: &str, out: &mut String, tier: &str) {
     let nreq = if rng.chance(7, 10) { 2 } else { 3 };
-    let safe = rng.chance(3, 4);
+    let safe = rng.chance(2, 3);
     let mut progs = vec![];
     out.push_str(&format!("case {name}\n"));
     for r in 0..nreq {
@@ -1076,10 +1078,61 @@ fn gen_case(rng: &mut Rng, name: &str, out: &mut String, tier: &str) {
     out.push_str("end\n");
 }
 
+/// exhaustive small scope: for fixed program pairs, ALL interleavings of {start r, fire r 1, ps r} (r = 0, 1) in
+/// which `start r` comes first among r's actions (80 per pair)
+fn gen_exhaustive(out: &mut String, tier: &str) -> usize {
+    let progs: &[(&str, &str, &str, &str)] = &[
+        ("io", "Q(L1,S1.2.3(L4))", "io", "Q(L1,S1.2.3(L4))"),
+        ("ooo", "S1.1.2(L3)", "io", "U(S1.1.2(L3))"),
+        ("io", "U(S1.1.2(V4(L3)))", "ooo", "U(S1.1.2(L3))"),
+        ("io", "Q(U(R1.1.2),C3)", "ooo", "Q(U(R1.1.2),C3)"),
+        ("ooo", "V2(U(Q(R1.1.2,F2.3)))", "io", "S1.1.2(V4(L3))"),
+        ("io", "Q(R1.1.2,E3)", "ooo", "Q(S1.1.2(E3),C4)"),
+        ("ooo", "U(Q(S1.1.2(E3),F2.4))", "ooo", "Q(V3(L1),S1.2.3(Q(E4,L5)))"),
+        ("io", "S1.1.2(U(L3))", "io", "Q(E1,U(S1.2.3(F2.4)))"),
+    ];
+    let n_pairs = if tier == "thorough" { progs.len() } else { 6 };
+    let mut count = 0;
+    for (t, (m0, p0, m1, p1)) in progs.iter().take(n_pairs).enumerate() {
+        // choose which 3 of the 6 slots belong to request 0; each request orders fire/ps both ways
+        for mask in 0u32..64 {
+            if mask.count_ones() != 3 {
+                continue;
+            }
+            for o0 in 0..2 {
+                for o1 in 0..2 {
+                    let seq = |r: usize, o: usize| -> Vec<String> {
+                        let mut v = vec![format!("start {r}")];
+                        if o == 0 {
+                            v.push(format!("fire {r} 1"));
+                            v.push(format!("ps {r}"));
+                        } else {
+                            v.push(format!("ps {r}"));
+                            v.push(format!("fire {r} 1"));
+                        }
+                        v
+                    };
+                    let (mut a, mut b) = (seq(0, o0).into_iter(), seq(1, o1).into_iter());
+                    out.push_str(&format!("case x{t}-{count}\nreq 0 {m0} {p0}\nreq 1 {m1} {p1}\n"));
+                    for slot in 0..6 {
+                        let line = if mask >> slot & 1 == 1 { a.next() } else { b.next() };
+                        out.push_str(&line.unwrap());
+                        out.push('\n');
+                    }
+                    out.push_str("end\n");
+                    count += 1;
+                }
+            }
+        }
+    }
+    count
+}
+
 fn gen(seed: u64, n: usize, ops: &str, tier: &str) {
     let mut rng = Rng::new(seed);
     let mut out = String::new();
-    for i in 0..n {
+    let k = gen_exhaustive(&mut out, tier);
+    for i in 0..n.saturating_sub(k) {
         gen_case(&mut rng, &format!("g{i}"), &mut out, tier);
     }
     std::fs::write(ops, out).unwrap();
